@@ -8,6 +8,8 @@ configuration.
 """
 
 import hashlib
+import os
+import tempfile
 import numpy as np
 from pathlib import Path
 
@@ -88,10 +90,17 @@ class GreensFunctionCache:
         )
         path = self.cache_dir / f"{key}.npz"
         if path.exists():
+            # An entry left truncated or corrupt by an interrupted run is a
+            # miss (np.load verifies the zip CRCs when the arrays are read).
+            try:
+                with np.load(path) as data:
+                    grid = (data["X"], data["Y"], data["Z"])
+                    result = grid, data["conc"], data["flx"]
+            except Exception as e:
+                logger.warning("Ignoring unreadable cache entry %s: %s", path, e)
+                return None
             logger.debug("Cache hit: %s", key[:12])
-            data = np.load(path)
-            grid = (data["X"], data["Y"], data["Z"])
-            return grid, data["conc"], data["flx"]
+            return result
         logger.debug("Cache miss: %s", key[:12])
         return None
 
@@ -115,7 +124,22 @@ class GreensFunctionCache:
         )
         path = self.cache_dir / f"{key}.npz"
         X, Y, Z = grid
-        np.savez(path, X=X, Y=Y, Z=Z, conc=conc, flx=flx)
+        # Write to a temporary file and rename it into place, so that a
+        # concurrent reader or a run interrupted half-way never sees a
+        # partially written entry under the final name.
+        fd, tmp = tempfile.mkstemp(
+            dir=self.cache_dir, prefix=f"{key[:12]}-", suffix=".tmp.npz"
+        )
+        try:
+            with os.fdopen(fd, "wb") as f:
+                np.savez(f, X=X, Y=Y, Z=Z, conc=conc, flx=flx)
+            os.replace(tmp, path)
+        except BaseException:
+            try:
+                os.unlink(tmp)
+            except OSError:
+                pass
+            raise
         logger.debug("Cached: %s", key[:12])
 
     def clear(self):
